@@ -252,7 +252,7 @@ func (oracleC07) Step(x *OCtx, t *Trans) []Violation {
 			out = append(out, viol("C07", "fee-never-above-base-price", kind, nameOf(r.Provider), fmt.Sprintf("fee %s above max(base %s, 1)", fee, rp.Base)))
 		}
 	}
-	if kind == "E" {
+	if kind == "E" || kind == "call" {
 		// the consumer's debit is the sum of the fees (super mode costs nothing): ledger comparison on ordinary accounts
 		L := BuildLedger(t)
 		for _, p := range L.CompareBalances(t.Pre, t.Post) {
